@@ -413,7 +413,7 @@ def rw(run, p, E, rt):
     modes = []
     encs = []
     for n, mode, enc in oc:
-        ms = E._modes(mode, _mode_env(w), w)
+        ms = E._modes(mode, _mode_env(w, E), w)
         modes += ms
         encs.append(enc)
     # the writer may hand the job to a helper of its module
@@ -421,7 +421,7 @@ def rw(run, p, E, rt):
         for g, _ctx in ts:
             if g.mod is w.mod and g is not w and g.cls is None:
                 for n, mode, enc in open_calls(p, g):
-                    ms = [m for m in E._modes(mode, _mode_env(g), g) if 'w' in m or 'a' in m]
+                    ms = [m for m in E._modes(mode, _mode_env(g, E), g) if 'w' in m or 'a' in m]
                     if ms:
                         modes += ms
                         encs.append(enc)
@@ -502,9 +502,15 @@ def rw(run, p, E, rt):
     run.floor('C10-RW', 4, 4)
 
 
-def _mode_env(f):
+def _mode_env(f, E=None):
     env = {}
     for n in ast.walk(f.node):
+        if E is not None and isinstance(n, ast.Assign) and len(n.targets) == 1 and isinstance(n.targets[0], (ast.Tuple, ast.List)):
+            cols = E._table_cells(n.value, f, len(n.targets[0].elts))      # (read_mode, write_mode) = MODES[bool(binary)]
+            if cols is not None:
+                for a, col in zip(n.targets[0].elts, cols):
+                    if isinstance(a, ast.Name):
+                        env['#modes:' + a.id] = sorted(set(col))
         if isinstance(n, ast.Assign) and len(n.targets) == 1 and isinstance(n.targets[0], ast.Name) \
                 and isinstance(n.value, ast.IfExp) and all(isinstance(x, ast.Constant) for x in (n.value.body, n.value.orelse)):
             env['#modes:' + n.targets[0].id] = [n.value.body.value, n.value.orelse.value]
